@@ -5,6 +5,7 @@ go 1.21
 require (
 	github.com/anishathalye/porcupine v1.3.0
 	github.com/cenkalti/rpc2 v0.0.0-20210604223624-c1acbc6ec984
+	github.com/go-logr/logr v1.2.2
 	github.com/go-logr/stdr v1.2.2
 	github.com/google/uuid v1.2.0
 	github.com/ovn-org/libovsdb v0.0.0
@@ -16,7 +17,6 @@ require (
 	github.com/cenkalti/hub v1.0.1 // indirect
 	github.com/cespare/xxhash/v2 v2.1.2 // indirect
 	github.com/davecgh/go-spew v1.1.1 // indirect
-	github.com/go-logr/logr v1.2.2 // indirect
 	github.com/golang/protobuf v1.5.2 // indirect
 	github.com/matttproud/golang_protobuf_extensions v1.0.1 // indirect
 	github.com/pmezard/go-difflib v1.0.0 // indirect
